@@ -239,6 +239,14 @@ class Engine:
             Obligation(nm, list(st.hyps), goal, getattr(node, "lineno", 0), path="".join(st.trace), kind=kind, probes=dict(probes or {}))
         )
 
+    def pre(self, st: State, cond, node, tag=None):
+        """callee precondition at a call site; in termination mode (no well-formedness) callee preconditions are not
+        assumed to be establishable -- the callee may then raise, which that mode allows"""
+        if getattr(getattr(self, "contract", None), "mode", "") == "termination":
+            return
+        self.ob("call.pre", st, cond, node, tag=tag)
+        st.hyps.append(cond)
+
     def may_raise(self, exc, st: State, safe, node):
         """Operation raises `exc` unless `safe`.  If the function contract lets `exc` escape, the raising path is
         recorded (and checked against the exceptional postcondition by the caller); otherwise `safe` is an obligation.
@@ -901,6 +909,13 @@ class Engine:
                         names.add(e.id)
         return sorted(names)
 
+    def _snapshot_entry(self, st: State, s):
+        """loop-entry values of the variables the loop modifies, available to invariants as ghost '@name'"""
+        for m in self._modified_names(s):
+            v = st.env.get(m)
+            if isinstance(v, (IntV, BoolV)):
+                st.ghost["@" + m] = v.e
+
     def _havoc(self, st: State, s, spec: LoopSpec):
         for m in self._modified_names(s):
             shape = spec.shapes.get(m)
@@ -941,6 +956,7 @@ class Engine:
         spec, lname = self._loop_spec(s, "While")
         if s.orelse:
             raise Unsupported("while-else")
+        self._snapshot_entry(st, s)
         self.ob(f"{lname}.init", st, spec.inv(self, st), s, tag="")
         head = st.fork()
         self._havoc(head, s, spec)
